@@ -14,7 +14,8 @@ GInit == /\ Init
          /\ done = FALSE
 
 GStep == /\ ~done /\ Len(hist) < MaxLen /\ ~tick.terminal
-         /\ LET ev == RandomElement(MCEvents) env == RandomElement(MCEnvs) IN Process(ev, env)
+         \* (bound through singleton sets: a LET would re-draw at every reference)
+         /\ \E ev \in {RandomElement(MCEvents)}, env \in {RandomElement(MCEnvs)} : Process(ev, env)
          /\ hist' = Append(hist, last')
          /\ UNCHANGED <<init, done>>
 
